@@ -126,6 +126,18 @@ fn piece_strategy() -> BoxedStrategy<Vec<WOp>> {
             WOp::Close { slot },
             WOp::CfbFlush,
         ]),
+        // a flushed stream above the cutoff is cut to an exact boundary (the 4096-byte cutoff itself,
+        // one below, whole sectors, whole mini sectors): what lies below the new length stays readable
+        // whichever underlying call of the shrink fails
+        1 => (slot.clone(), 0u8..3, proptest::sample::select(vec![4097u32, 5000, 8192, 9000, 12_288]), proptest::sample::select(vec![4096u32, 4096, 4095, 4032, 4608, 8192, 512, 64]), any::<u8>()).prop_map(|(slot, name, a, t, seed)| vec![
+            WOp::CreateStream { slot, name },
+            WOp::WriteAll { slot, data: DataSpec { len: a, seed } },
+            WOp::Flush { slot },
+            WOp::SetLen { slot, len: LenSpec::Abs(t) },
+            WOp::Flush { slot },
+            WOp::Close { slot },
+            WOp::CfbFlush,
+        ]),
         // overwrite + seek elsewhere (window move writes back) + flush
         1 => (slot.clone(), small(), any::<u16>()).prop_map(|(slot, sm, frac)| vec![
             WOp::SeekStart { slot, frac: 0 },
